@@ -584,8 +584,12 @@ class C11(Machine):
                 grid = sim.get_grid(s, f)
                 model = sim.model.interpolate_to_grid(grid)
                 if st.get('tainted'):
-                    self._selfconsistent(ctx, sim, s, f, ef, info, grid,
-                                         model, kind)
+                    self._tainted_now = True
+                    try:
+                        self._selfconsistent(ctx, sim, s, f, ef, info, grid,
+                                             model, kind)
+                    finally:
+                        self._tainted_now = False
                     continue
                 opts = dict(sim.solver_opts)
                 opts['tol'] = sim.tol_forward
@@ -632,6 +636,11 @@ class C11(Machine):
         # responses sampled from that very field
         resp = sim._get_responses(s, f, ef)
         got = sim.data.synthetic.loc[s, :, f].data
+        if getattr(self, '_tainted_now', False) and np.isnan(got).all():
+            # after a failed attempt in file-based mode a slot may already
+            # point to its (valid) result file while the responses were not
+            # stored yet: "nothing" is an allowed state there
+            return
         if ahash(resp) != ahash(got):
             raise Violation(
                 'slot_attribution',
